@@ -101,6 +101,12 @@ def _o1_o2(ctx, result, module):
         cur = cur._parent
         if isinstance(cur, ast.Try) and cur.finalbody:
             tries.append(cur)
+        elif isinstance(cur, ast.Try) and cur.orelse and any(
+                (h.type is None or (isinstance(h.type, ast.Name) and h.type.id == "BaseException"))
+                and h.body and isinstance(h.body[-1], ast.Raise) and h.body[-1].exc is None for h in cur.handlers):
+            # try / except BaseException: <restore>; raise / else: <restore>  covers the same exits as try/finally
+            # (what each arm restores is checked path by path below)
+            tries.append(cur)
     ok_struct = bool(tries)
     # equivalent idiom: the restore is registered on an ExitStack whose with-block encloses the yield
     stack_names = set()
@@ -248,7 +254,7 @@ def _o1_o2(ctx, result, module):
                     "O2: on this exit the complete previous option set is not restored from "
                     "the snapshot (accepted: set_options(**snapshot), _NUMPOLY_OPTIONS.update(snapshot))",
                     derivation=trace,
-                    construct=U(tries[0].finalbody[0]) if tries else f"def {qual}"))
+                    construct=U(tries[0].finalbody[0]) if tries and tries[0].finalbody else f"def {qual}"))
     if n == 0:
         raise AnalysisError("global_options: no mutation found on any path (vacuous)")
 
